@@ -227,6 +227,57 @@ def indirect_default_stage(ctx, findings):
             else: fails.append({"request": rq, "what": "a default %r outside the admitted range [%s, %s] is accepted through the %s site (selected type %s)" % (v, lo, hi, site, rty)})
     return {"evaluations": len(reqs), "fails": fails, "known": known, "answers": stats, "finding": fd}
 
+def composed_integer_stage(ctx):
+    """'every integer the schema admits fits the chosen type', for integer schemas whose bounds are spread over oneOf / anyOf /
+    allOf branches (the merge path): real add path through tvh_ir; the representable set is read off the IR dump (integer
+    types, NonZero types, untagged unions of them, Option); a composition typify refuses (Err / unimplemented) is not judged"""
+    import m2, irutil, gen
+    I = lambda **kw: dict({"type": "integer"}, **kw)
+    bodies = [{}, {"format": "int32"}, {"format": "uint8"}, {"format": "int64"}]
+    comps = [{"oneOf": [I(minimum=0, maximum=0, exclusiveMinimum=-1), I(minimum=1)]},
+             {"oneOf": [I(minimum=0, maximum=0), I(minimum=1)]},
+             {"anyOf": [I(maximum=-1), I(minimum=1)]},
+             {"oneOf": [I(minimum=1, maximum=10), I(minimum=100, maximum=200)]},
+             {"allOf": [I(minimum=0), I(maximum=255)]},
+             {"allOf": [I(minimum=1), I(maximum=65535)]},
+             {"allOf": [I(exclusiveMinimum=0), I(exclusiveMaximum=256)]},
+             {"anyOf": [I(minimum=0, maximum=0), I(minimum=5, maximum=5), I(minimum=-1, maximum=-1)]},
+             {"oneOf": [I(exclusiveMinimum=-1, exclusiveMaximum=1), I(minimum=2)]}]
+    schemas = [dict(I(**b), **c) for b in bodies for c in comps]
+    ans = m2.tvh_ir([{"settings": {}, "calls": [{"root": {"definitions": {"T": sc}}}]} for sc in schemas])
+    probes = [-2**31 - 1, -129, -128, -2, -1, 0, 1, 2, 5, 10, 11, 100, 127, 128, 200, 201, 255, 256, 65535, 65536, 2**31 - 1, 2**31, 2**32]
+    fails = []; judged = 0; refused = 0
+    for sc, a in zip(schemas, ans):
+        if a.get("aborted") or not (a.get("calls") and a["calls"][-1].startswith("ok")): refused += 1; continue
+        es = irutil.entries(a["dump"]); nm = irutil.named(a["dump"])
+        if "T" not in nm: refused += 1; continue
+        def ranges(i, fuel=8):
+            e = es.get(i, {})
+            if fuel <= 0: return None
+            k = e.get("kind")
+            if k == "integer": return [TYPES.get(e.get("name") or e.get("type_name"), (None, None))]
+            if k in ("newtype", "box"): return ranges(e["type_id"] if k == "newtype" else e["id"], fuel - 1)
+            if k == "option": return ranges(e["id"], fuel - 1)
+            if k == "enum" and e.get("tag") == "untagged":
+                out = []
+                for v in e["variants"]:
+                    if not (isinstance(v["details"], dict) and "item" in v["details"]): return None
+                    r_ = ranges(v["details"]["item"], fuel - 1)
+                    if r_ is None: return None
+                    out += r_
+                return out
+            if k == "float": return [(-2**200, 2**200)]
+            return None
+        rs = ranges(nm["T"][0])
+        if rs is None or any(lo is None for lo, hi in rs): continue
+        judged += 1
+        doc = {"definitions": {"T": sc}}
+        for v in probes:
+            if gen.lite_valid(doc, sc, v) and not any(lo <= v <= hi for lo, hi in rs):
+                fails.append({"schema": sc, "value": v, "representable": rs,
+                              "what": "%r is admitted by the schema but no integer type of the generated type holds it (%s)" % (v, rs)}); break
+    return {"evaluations": len(schemas), "judged": judged, "refused": refused, "fails": fails}
+
 def convert_string_stage(ctx, st):
     """M0 for the model of convert_string (Model/ConvertString.lean, theorems Proofs/C05Convert.lean): the whole keyword
     lattice format x minLength x maxLength x pattern, one document per schema (the uses_ flags belong to the type space),
@@ -423,6 +474,11 @@ def run(ctx):
     for fl in ind["fails"][:3]:
         vlib.violation(ctx, {"property": "C10", "kind": "implementation violates the property", "failed_clause": "default outside the admitted range is an error (indirect sites)",
                              "input": fl["request"], "detail": fl["what"], "broken_obligations": broken})
+    ci_ = composed_integer_stage(ctx)
+    ctx.log("composed integer schemas: %d documents, %d judged, %d refused by typify, %d failures" % (ci_["evaluations"], ci_["judged"], ci_["refused"], len(ci_["fails"])))
+    for fl in ci_["fails"][:3]:
+        vlib.violation(ctx, {"property": "C10", "kind": "implementation violates the property", "failed_clause": "every admitted integer fits the chosen type (composed schema)",
+                             "input": fl["schema"], "detail": fl["what"], "broken_obligations": broken})
     cs_ = convert_string_stage(ctx, st)
     ctx.log("convert_string model (M0): %d schemas, %d disagreements, answers %r" % (cs_["evaluations"], len(cs_["disagreements"]), cs_["answers"]))
     if cs_["disagreements"]:
@@ -452,7 +508,7 @@ def run(ctx):
                              "input": c, "impl_answer": a, "failed_clause": kind, "witness_value": det,
                              "broken_obligations": broken, "first_disagreements": disagreements[:3],
                              "replay": "./check C10 --replay <this file>"})
-    if broken and not new_fail and not sf["fails"] and not ind["fails"]:
+    if broken and not new_fail and not sf["fails"] and not ind["fails"] and not ci_["fails"]:
         vlib.violation(ctx, {"property": "C10", "kind": "property no longer shown to hold",
                              "broken_obligations": broken, "first_disagreements": disagreements[:5],
                              "lean_log": st.get("log", "")}, no_input=True)
@@ -473,6 +529,7 @@ def run(ctx):
         "out_of_model_domain": unsupported,
         "answer_distribution": dict(sorted(branches.items(), key=lambda kv: -kv[1])[:20]),
         "tables_regenerated": st["tables_ok"],
+        "composed_integer_schemas": {"evaluations": ci_["evaluations"], "judged": ci_["judged"], "refused_by_typify": ci_["refused"], "failures": len(ci_["fails"])},
         "indirect_default_sites": {"evaluations": ind["evaluations"], "answers": ind["answers"], "failures": len(ind["fails"]), "attributed_to_finding": ind["known"]},
         "convert_string_model": {"evaluations": cs_["evaluations"], "disagreements": cs_["disagreements"][:5], "answers": cs_["answers"],
                                  "theorems": ["C05C.convert_string_exact", "C05C.convert_string_uses_regress", "C05C.convert_string_format_ignores_validation", "C05C.convert_string_format_drops"]},
